@@ -1,5 +1,7 @@
 //! vkit: verification kit for scylla-rust-driver (property-based testing and fuzzing).
+pub mod alloc;
 pub mod checks;
+pub mod gen_frames;
 pub mod gen_values;
 pub mod glue;
 pub mod runner;
